@@ -332,7 +332,8 @@ func runServerCases(seed uint64, n int, res *Result) ([]cexCase, error) {
 	return all, nil
 }
 
-func compareServer(check string, cases []cexCase, res *Result) error {
+func compareServer(check string, cases []cexCase, res *Result, withSpec ...bool) error {
+	useSpec := len(withSpec) > 0 && withSpec[0]
 	lines := make([]string, 0, 2*len(cases))
 	for _, c := range cases {
 		lines = append(lines, c.line, "srvspec"+c.line[3:])
@@ -347,7 +348,7 @@ func compareServer(check string, cases []cexCase, res *Result) error {
 		}
 		res.Eval(c.key, true, shorten(c.line, 300)+" => "+shorten(c.impl, 300))
 		model, spec := stripEnded(outs[2*i]), stripEnded(outs[2*i+1])
-		if spec != c.impl {
+		if useSpec && spec != c.impl {
 			// property oracle (Spec.serverEvents per complete frame) disagrees with the implementation
 			note := "server events differ from Spec.serverEvents"
 			ie, se := strings.Split(c.impl, ";"), strings.Split(spec, ";")
@@ -377,6 +378,6 @@ func init() {
 		if err != nil {
 			return err
 		}
-		return compareServer("srv", cases, res)
+		return compareServer("srv", cases, res, true)
 	}
 }
